@@ -1535,7 +1535,7 @@ def remove_stns_sinex(sinex, sites):
         del solution_epochs
         num_params = int(old_num_params) - num_stn_params * num_stns_to_remove
         num_params = '{:05d}'.format(num_params)
-        header = header.replace(str(old_num_params), str(num_params))
+        header = header[:60] + num_params + header[65:]
         out.write(header)
 
         out.write("*-------------------------------------------------------------------------------\n")
